@@ -314,6 +314,8 @@ func (s *sim) deliver(mb *mBlock) {
 	prevTip := s.nodeTip()
 	s.node.discon = s.node.discon[:0]
 	s.node.connected = s.node.connected[:0]
+	lihBefore := s.node.arbiters.State.GetLastIrreversibleHeight()
+	s.node.lihRef, s.node.lihCrossed = lihBefore, nil
 	mb.sent++
 	var inMain, orphan bool
 	var err error
@@ -339,6 +341,29 @@ func (s *sim) deliver(mb *mBlock) {
 		c.Probe("orphan-held")
 	}
 	newTip := s.nodeTip()
+	// C30: nothing at or below the last irreversible height was detached, and
+	// the height does not decrease while the node moves forward
+	lihAfter := s.node.arbiters.State.GetLastIrreversibleHeight()
+	if os.Getenv("SIM_DEBUG") != "" {
+		fmt.Fprintf(os.Stderr, "DEBUG lih %d -> %d (tip h=%d, consensus %v, revertpowstart cfg %d state %d)\n", lihBefore, lihAfter, newTip.height, s.node.arbiters.State.GetConsensusAlgorithm(),
+			s.node.cfg.DPoSConfiguration.RevertToPOWStartHeight, s.node.arbiters.State.ChainParams.DPoSConfiguration.RevertToPOWStartHeight)
+	}
+	if lihBefore > 0 || lihAfter > 0 {
+		c.Check()
+		c.Probe("irreversible-height-recorded")
+		if lihAfter > lihBefore {
+			c.Probe("irreversible-height-advanced")
+		}
+		for _, m := range s.node.lihCrossed {
+			c.Violate("C30", "irreversible-detached", "C30/detached-at-or-below-last-irreversible-height", "delivery of #%d: %s", mb.idx, m)
+		}
+		if prevTip.isAncestorOf(newTip) && lihAfter < lihBefore {
+			c.Violate("C30", "irreversible-monotone", "C30/last-irreversible-height-decreased-moving-forward", "delivery of #%d extended the chain from h=%d to h=%d but the last irreversible height went from %d to %d", mb.idx, prevTip.height, newTip.height, lihBefore, lihAfter)
+		}
+		if len(s.node.discon) > 0 {
+			c.Probe("reorg-while-irreversible-height-recorded")
+		}
+	}
 	if len(s.node.discon) > 0 {
 		c.Probe("reorg")
 		c.ProbeN("reorg-blocks-detached", len(s.node.discon))
